@@ -13,8 +13,9 @@ from props import c12, c17
 RULE = ("CFG: ONE fixed seeded corpus (parsers on valid and malformed text/bytes, formatters, accessors, generator histories "
         "and finalization under all option settings, length encoding, comparison, string comparison, scripted streams) is run "
         "on a harness built under each configuration of the matrix -- quick: default (AVX2 by runtime detection), no SIMD / "
-        "default tables, half+min tables + low-memory buckets, statically selected SSE2; thorough: also embedded defaults, "
-        "quarter and min decode tables, static SSSE3 / SSE4.1 / AVX2, feature unsafe (debug and release), release -- so every "
+        "default tables, embedded defaults (16x16 Q table, half encode table), half decode + min encode tables + low-memory "
+        "buckets, quarter decode table, min decode table, statically selected SSE2; thorough: also static SSSE3 / SSE4.1 / "
+        "AVX2, feature unsafe (debug and release), release -- so every "
         "cfg_if branch is compiled at least once.  Every transcript must be line-for-line identical to the default build's and "
         "equal to the model under the matching flags.  BACKENDS: through the cfg-guarded hooks every compiled aggregation "
         "backend (naive, SSE2, SSSE3, AVX2, and the build's own dispatch) on bucket arrays with counters around the quartiles, "
